@@ -9,7 +9,7 @@ from common import Rng, frac_of, enc_round, enc_exact, load_table
 PID = "C14"
 BINS = ["x_core", "x_conv"]
 RULE = ("random ConversionTable<Q,N> (N in 0,1,2,3,4,6,8,12; duplicate (from,to) entries with different coefficients, missing pairs, "
-        "identity entries) over SynFive, SynTwo, Temperature and two reference-unit types x every ordered unit pair x amounts: same unit -> "
+        "identity entries, coefficients incl. exactly 0, 1, -1, +-2^+-1, +-10^+-1) over SynFive, SynTwo, Temperature and two reference-unit types x every ordered unit pair x amounts: same unit -> "
         "unchanged, else bit-equal to the amount type's own x*f+o of the FIRST matching entry (f64: incl. NaN, +-inf and -0.0 amounts), else None; TEMPERATURE_CONVERTER x all 9 unit "
         "pairs x temperatures from absolute zero to 1e6 K incl. fixed points, against exact rational formulas, inverse and composition "
         "consistency over all 27 unit triples; cell = (backend,type or 'temp',u,v[,w],case kind); non-trivial = u != v")
@@ -29,8 +29,11 @@ def plan(env, tier, seed):
 
 
 def coef(rng, b):
-    c = rng.choice(["int", "dec", "neg", "one", "zero", "frac"])
-    if c == "int":
+    c = rng.choice(["int", "dec", "neg", "one", "zero", "frac", "unit_like"])
+    if c == "unit_like":
+        # coefficients a shortcut could mistake for "nothing to do": exactly -1, powers of two and ten, their negatives
+        fr = Fraction(rng.choice([-1, -1, -1, 2, -2, 10, -10])) ** rng.choice([1, 1, -1])
+    elif c == "int":
         fr = Fraction(rng.randint(1, 1000))
     elif c == "dec":
         fr = Fraction(rng.randint(1, 99999), 10 ** rng.randint(1, 4))
